@@ -1114,8 +1114,12 @@ impl<'de, K: Key, S: BuildHasher + Default> Deserialize<'de> for Rodeo<K, S> {
             });
 
             match entry {
+                // A string that occurs twice would leave the keys of all the strings
+                // after it pointing past the end of the strings vector
                 RawEntryMut::Occupied(..) => {
-                    debug_assert!(false, "re-interned a key while deserializing");
+                    return Err(serde::de::Error::custom(
+                        "found a duplicated string while deserializing",
+                    ));
                 }
                 RawEntryMut::Vacant(entry) => {
                     // Create the key from the vec's index that the string will hold
